@@ -6,6 +6,11 @@ from vf.core import Clause, Property, Violation
 from vf.osk import IS_TM, eff_limit, eff_tau, outcome_values, rate_values
 from vf.props.c04 import big_lobbies
 from vf.refmodel import compare, reference
+from vf.league import league_class
+from vf.stateful import machine_factory, replayer
+
+LEAGUE = league_class("C01League", ("ref",), "C01")
+
 
 T_LO, T_HI = 1e-8, 1e-2
 
@@ -116,6 +121,14 @@ PROPERTY = Property(
             quick=96,
             thorough=2000,
             rule="exploration beyond the stated 2..8 teams: lobbies of 9..40 teams compared with the reference",
+        ),
+        Clause(
+            name="league-vs-reference", kind="stateful", machine=machine_factory(LEAGUE), check=replayer(LEAGUE),
+            quick=320, thorough=6000, steps_quick=30, steps_thorough=120,
+            rule="rule-based machine: a league of 5-12 rating OBJECTS on ONE model; rate() on drawn partitions with any outcome encoding / per-call "
+                 "options, returned (or passed-in) objects fed back, the very list a call returned rated again, predictions interleaved; after every "
+                 "game each returned (mu, sigma) must lie in the reference interval computed from the values the objects held just before the "
+                 "call; non-trivial = >= 8 games with some player in >= 4",
         ),
     ],
     rule="generated (model kind, beta/kappa/tau/limit_sigma/gamma, 2..8 teams x 1..8 players in one of 7 value regimes, weak order, "
